@@ -264,3 +264,98 @@ def generated_stream(ck, rng, n_regs, oracle, tag):
             first = first or {"registry": lines, "case": desc[bad[0]], "coq_case": cases[bad[0]]}
         ck.count("generated registries")
     return total, nbad, first
+
+
+# ---------------------------------------------------------------- definitions rewritten by a context
+def _load_text(lines, nit=F):
+    import os
+    import shutil
+    import tempfile
+    import pint
+    d = tempfile.mkdtemp(prefix="pintverif_")
+    try:
+        p = os.path.join(d, "gen.txt")
+        with open(p, "w", encoding="utf-8") as f:
+            f.write("\n".join(lines) + "\n")
+        return pint.UnitRegistry(p, non_int_type=nit, cache_folder=None)
+    finally:
+        shutil.rmtree(d, ignore_errors=True)
+
+
+def redefinition_stream(ck, rng, n_regs, oracle, tag):
+    """A generated definition file whose `@context` block rewrites one unit (same references, another factor).
+    While that context is active the written definitions in force are those of the file with the unit's line
+    replaced: registry A (file + context, context active) must convert like registry B (file with the line
+    replaced, no context), whichever spellings - prefixed, plural, symbol - were already resolved on A before
+    the context was switched on; B is itself compared with the Coq model `elab` of T1's reading of B's text.
+    After the block A must convert like the unmodified file again."""
+    import pint
+    total, nbad, first = 0, 0, None
+    for gi in range(n_regs):
+        lines = gen_definition_lines(rng)
+        cand = [i for i, l in enumerate(lines) if l.startswith("u") and "x = " in l]
+        i = rng.choice(cand)
+        parts = lines[i].split(" = ")
+        nm, rhs = parts[0], parts[1]
+        toks = rhs.split(" ")
+        newfac = rng.choice([f for f in ["1200/3937", "9", "0.25", "1.5", "3e-2"] if f != toks[0]])
+        newrhs = " ".join([newfac] + toks[1:])
+        ctx = ["@context redef", f"    {nm} = {newrhs}", "@end"]
+        lines_b = list(lines)
+        lines_b[i] = " = ".join([nm, newrhs] + parts[2:])
+        A = _load_text(lines + ctx)
+        O = _load_text(lines)
+        B, raw_b = load_generated(lines_b)
+        sp = spellings(B)
+        pre = ["kilo", "milli", "mega", "demi", "semi", "k", "m", "M"]
+        pool = list(sp)
+        for s in sp:
+            for p in pre:
+                for pl in ("", "s"):
+                    c = p + s + pl
+                    try:
+                        B.get_name(c)
+                        pool.append(c)
+                    except Exception:
+                        pass
+        # the spellings that reach the rewritten unit (directly or through other definitions)
+        def reaches(s):
+            return F(B._get_root_units(mkuc(B, {s: F(1)}))[0]) != F(O._get_root_units(mkuc(O, {s: F(1)}))[0])
+        hot = [s for s in pool if reaches(s)]
+        warmed = rng.sample(hot, min(len(hot), rng.randint(0, 8))) + rng.sample(pool, 4)
+        for s in warmed:                       # resolved while the context is NOT active
+            A.get_name(s)
+            if rng.random() < 0.5:
+                A._get_root_units(mkuc(A, {s: F(1)}))
+        rp0 = {"definitions": lines, "context": ctx, "resolved_before_the_context": warmed}
+
+        def conv(reg, a, b):
+            try:
+                return reg.convert(F(3), a, b)
+            except pint.errors.DimensionalityError:
+                return "DimensionalityError"
+
+        pairs = [(rng.choice(hot or pool), rng.choice(pool)) if rng.random() < 0.7 else (rng.choice(pool), rng.choice(hot or pool)) for _ in range(60)]
+        cases, desc = [], []
+        with A.context("redef"):
+            for a, b in pairs:
+                x, y = conv(A, a, b), conv(B, a, b)
+                oracle(x == y and type(x) is type(y), f"redefined:{tag}:factor",
+                       f"inside a context that rewrites {nm}: 3 {a} -> {b} = {x}, but the definitions in force give {y}", dict(rp0, a=a, b=b))
+                # the model is given what pint answered inside the context, and the text of B
+                o = "ODimErr" if x == "DimensionalityError" else outcome_of_number(F(x) / 3)
+                cases.append(f"RFactor {coq_uc({a: F(1)})} {coq_uc({b: F(1)})} {o}"); desc.append({"factor_in_context": [a, b]})
+                ck.case(key=("redef", tag, gi, a, b))
+        for a, b in pairs[:20]:
+            x, y = conv(A, a, b), conv(O, a, b)
+            oracle(x == y, f"redefined:{tag}:after", f"after leaving the context that rewrote {nm}: 3 {a} -> {b} = {x}, the file says {y}", dict(rp0, a=a, b=b))
+        bad = ck.coq_mismatches(f"redef{tag}{gi}", gen_header(raw_b), cases, "ok")
+        total += len(cases)
+        if bad is None:
+            nbad += 1
+            first = first or {"registry": lines_b, "coq": "evaluation failed"}
+        elif bad:
+            nbad += len(bad)
+            first = first or dict(rp0, case=desc[bad[0]], coq_case=cases[bad[0]])
+        ck.count("generated registries with a rewriting context")
+    return total, nbad, first
